@@ -31,7 +31,7 @@ RELS = TWIN_RELS + ["inverse", "compose"]
 
 
 @st.composite
-def relation_case(draw, tier="quick"):
+def relation_case(draw, tier="quick", k=0):
     """One base call; 'all' = every twin relation is derived from it and checked."""
     rel = draw(st.sampled_from(["all", "all", "all", "all", "inverse", "compose"]))
     if rel == "inverse":
@@ -39,7 +39,7 @@ def relation_case(draw, tier="quick"):
     elif rel == "compose":
         base = draw(G.pure_id_case(with_third=True))
     else:
-        base = draw(G.call_case(quick=(tier == "quick")))
+        base = draw(G.stratified_case(k, quick=(tier == "quick")))
     rnd = [draw(st.integers(0, 10**6)) for _ in range(6)]
     return {"rel": rel, "base": base, "rnd": rnd}
 
@@ -293,7 +293,7 @@ def replay_case(case):
 
 
 def make_strategy(tier, k):
-    return relation_case(tier)
+    return relation_case(tier, k)
 
 
 def worker(k, n, tier, seed, known_buckets, extra):
